@@ -34,16 +34,26 @@ def relay(values):
 
 
 def mutate(v):
-    """change a container IN PLACE so that its type changes (new element type, emptied dict, new key type)"""
+    """change a container IN PLACE so that its type changes: alternately WITHOUT changing its length (an element / a value
+    replaced by one of another type) and with a new length (new element, emptied dict, new key type)"""
+    R.mutations += 1  # per-run counter of the recorder in charge: a case is a pure function of its spec
     t = type(v)
+    same_length = R.mutations % 2 == 0
     if t is list:
-        v.append(b"m")
+        if v and same_length:
+            v[0] = b"m"
+        else:
+            v.append(b"m")
     elif t is dict:
-        if v:
+        if v and same_length:
+            v[next(iter(v))] = b"m"
+        elif v:
             v.clear()
         else:
             v[2.5] = b"m"
     elif t is set:
+        if v and same_length:
+            v.pop()
         v.add(b"m")
     return v
 
@@ -69,6 +79,7 @@ class Rec:
         self.n = 0
         self.fuel_left = 0
         self.journal = []
+        self.mutations = 0
         self.kept = []  # closures handed out by their defining functions, to be called later by the driver
 
     def _t(self, v):
